@@ -104,6 +104,8 @@ class Ctx:
         # StackOverflowError in WireFuzzGen when the machine is loaded: interpreted frames are larger than compiled ones.)
         if "-Xss" not in e.get("JDK_JAVA_OPTIONS", ""):
             e["JDK_JAVA_OPTIONS"] = (e.get("JDK_JAVA_OPTIONS", "") + " -Xss512m").strip()
+        if "-Djava.io.tmpdir" not in e.get("JAVA_TOOL_OPTIONS", ""):
+            e["JAVA_TOOL_OPTIONS"] = (e.get("JAVA_TOOL_OPTIONS", "") + " -Djava.io.tmpdir=" + jtmp).strip()   # an engine's own options replaced ours
         if "-Xss" not in e.get("JAVA_TOOL_OPTIONS", ""):
             # deep recursive operators (sequence folds over long traces) overflow the default 1 MB thread stacks now and then
             e["JAVA_TOOL_OPTIONS"] = (e.get("JAVA_TOOL_OPTIONS", "") + " -Xss256m").strip()
